@@ -2,7 +2,7 @@
 //@ props: C13
 //@ source: src/dap/yadap/session/control.rs
 //@ fn: DebugSession::literal_truthy, DebugSession::evaluate_condition_expression
-//@ assume: oracle for truthiness (the property: "a conditional breakpoint stops only when its condition holds"): a literal condition holds iff it is a non-empty string/array, a non-zero number/address, `true`, or an enum variant; the float comparison is outlined; the two chumsky parsers (literal / data-query expression) and Debugger::read_variable are external: what is verified is the ORDER and the decision: empty text holds; a text that parses completely as a literal is judged as that literal; otherwise it is evaluated as a data query and judged by its first result, no result = does not hold
+//@ assume: oracle for truthiness (the property: "a conditional breakpoint stops only when its condition holds"): a literal condition holds iff it is a non-empty string/array, a non-zero number/address, `true`, or an enum variant; the float arm is outlined as a whole (Verus has no f64 comparisons); the two chumsky parsers (literal / data-query expression) and Debugger::read_variable are external: what is verified is the ORDER and the decision: empty text holds; a text that parses completely as a literal is judged as that literal; otherwise it is evaluated as a data query and judged by its first result, no result = does not hold
 //@ notcovered: the grammar itself (a bare identifier parses as an enum-variant literal and is therefore always true: observation of a seeding agent, not a finding of this unit), value_truthy's rendering fallback, evaluation errors
 use vstd::prelude::*;
 verus! {
@@ -60,7 +60,7 @@ impl DebugSession {
 //@   sig: fn literal_truthy(literal: &Literal) -> (r: bool)
 //@   ensures E_truthy: r == holds(literal)
 //@   outline O_se: `!value.is_empty()` => `!outline_str_is_empty(value)`
-//@   outline O_f: `*value != 0.0` => `outline_float_nonzero(value)`
+//@   outline O_f: `Literal::Float(value) => $e,` => `Literal::Float(value) => outline_float_nonzero(value),`
 //@ end
 
     #[verifier::external_body]
